@@ -426,27 +426,31 @@ def ambiguous_head(tree, comps):
 
 
 def root_cause(case, res, facts, in_tree, in_cands, out_is_stmt, out_positions=()):
-    """the first applicable explanation, from probes of the real code (find_in_ast, annotate_ancestry) — names the region"""
+    """explanation of a failure from probes of the real code (find_in_ast, annotate_ancestry) — names the region.
+    One applicable defect: its name (+ detail).  Several independent ones at once: `several-known-causes`."""
     probe = res["probe"]
+    found = []
     if not case["eval"]:
         f = probe.get("find")
         if f is None:
-            return {"cause": "input-lookup-none",
-                    "why": "keyword-only-input" if "kwonly" in facts["in_kind"] else "function-def-before-class" if facts["fn_before_class"] else "other"}
-        if isinstance(f, dict) and str(f.get("type", "")).startswith("raises:"):
-            return {"cause": "input-lookup-raises"}
-        if isinstance(f, dict) and "line" in f:
+            found.append({"cause": "input-lookup-none",
+                          "why": "keyword-only-input" if "kwonly" in facts["in_kind"] else "function-def-before-class" if facts["fn_before_class"] else "other"})
+        elif isinstance(f, dict) and str(f.get("type", "")).startswith("raises:"):
+            found.append({"cause": "input-lookup-raises"})
+        elif isinstance(f, dict) and "line" in f:
             intended = {(node_at(in_tree, c["path"]).lineno, node_at(in_tree, c["path"]).col_offset) for c in in_cands}
             if (f["line"], f["col"]) not in intended:
-                return {"cause": "input-lookup-wrong-node", "found": f["type"]}
-            if f["type"] == "arg" and out_is_stmt:
-                return {"cause": "arg-node-in-statement-list"}
+                found.append({"cause": "input-lookup-wrong-node", "found": f["type"]})
+            elif f["type"] == "arg" and out_is_stmt:
+                found.append({"cause": "arg-node-in-statement-list"})
     if probe.get("located") and tuple(probe["located"][0]) not in out_positions:
         # `_location` holds only the immediate parent's name: a nested definition can carry the same location
-        return {"cause": "location-shared-by-nested-definition"}
+        found.append({"cause": "location-shared-by-nested-definition"})
     if probe.get("clash"):
-        return {"cause": "string-constant-clash"}
-    return {}
+        found.append({"cause": "string-constant-clash"})
+    if len(found) > 1:
+        return {"cause": "several-known-causes", "causes": "+".join(x["cause"] for x in found)}
+    return found[0] if found else {}
 
 
 def template_ok(wrap):
@@ -947,7 +951,7 @@ def run(chk: core.Check) -> int:
             sig = dict(sig, model=verdict)
             if verdict == "outside-domain:location-clash-inside-opaque-node" and sig.get("cause") != "ast_parse-docstring-reindent":
                 # the code left the model because of the clash: that is what explains this failure
-                sig = {x: y for x, y in sig.items() if x not in ("found", "why")}
+                sig = {x: y for x, y in sig.items() if x not in ("found", "why", "causes")}
                 sig["cause"] = "string-constant-clash"
             causes.add(sig.get("cause") or sig.get("where") or sig.get("kind"))
             chk.failure(sig, what, {"fn": "sync", "case": {x: c[x] for x in ("in_src", "out_src", "ip", "op", "wrap", "eval")}, "sig": {x: y for x, y in sig.items() if x != "model"}})
